@@ -40,7 +40,18 @@ META = {
     "spellings give one record, what is refused is refused with the stated error before anything is built, and END "
     "TO END GeoBox(shape1, A, spec1) == GeoBox(shape2, A, spec2) / BoundingBox likewise after any two real "
     "histories whenever the shapes normalise alike and pyproj assigns the specs one system; GeoboxTiles(box, how) "
-    "and GridSpec(crs, shape, res) reach the modelled cores (mk', C14 grid) with nothing in between.  Tied to /repo on every run: random histories (incl. crs == spec, rejected spellings, cache "
+    "and GridSpec(crs, shape, res) reach the modelled cores (mk', C14 grid) with nothing in between.  Second "
+    "increment (Model/C19Alias.lean, Props/C19Alias.lean): SHARING of one CRS instance by several values as a heap of "
+    "instances and holders that store a reference (norm_crs hands the instance through; CRS(x) / unpickling make a "
+    "new instance; the lazy _epsg lives in the instance): values sharing an instance are == with no coherence "
+    "hypothesis at all, one .epsg read is seen by every holder and by no copy taken before it, hash / token / "
+    "pickle of a holder never move under reads, == between holders of different instances is invariant under reads "
+    "exactly under EPSG coherence (the negation of K4; witness of the flip and of the lost transitivity among three "
+    "untouched boxes); CRS.authority as a function of the lazy field (history dependent, same root as K4, reported "
+    "under its key); the NaN clean-up of the transformer wrapper (arrays: NaN in either coordinate => NaN in both, "
+    "finite pairs untouched; scalars handed through); the key-coherence hypotheses of construct_sys_correct are "
+    "PROVED for texts that are not EPSG spellings (the key function is the identity there) and remain assumed only "
+    "for letter-case variants of EPSG:<code> / the int code (and the pyproj-object keys of K5).  Tied to /repo on every run: random histories (incl. crs == spec, rejected spellings, cache "
     "capacity) replayed in fresh interpreters and diffed against the model, all pairs of near-identical values "
     "per type (1-ulp neighbours, long lists) diffed against the model, constructors diffed exactly, attribute "
     "sets found by introspection, and model-independent oracles on the real objects (pairs/triples, clones, "
@@ -58,7 +69,8 @@ META = {
     "mapping identity, K4 CRS equality depends on the lazily cached EPSG code, K5/F16 pyproj object / WKT text "
     "cache key collision (a pinned test relies on it); each has a _cex theorem and a replay, the matching "
     "_partial theorem names the excluding hypothesis; K27 BoundingBox == its 4-tuple with a different hash "
-    "(BBox.eq_tuple_hash_cex).  Trusted: pyproj equality/to_epsg/srs as tabulated per "
+    "(BBox.eq_tuple_hash_cex).  GeoboxTiles(box, chunks) follows main after `fix: GeoboxTiles refuses chunk tuples "
+    "that do not add up to the GeoBox shape` (GBTiles.ctor_chunks_add_up).  Trusted: pyproj equality/to_epsg/srs as tabulated per "
     "run, CPython id reuse and GC (modelled adversarially, sampled), dask tokenize = injective print of the "
     "normalised tuple, pickle bytes determined by printed field values.  Out of scope and not modelled: "
     "concurrent CRS construction from several threads (cachetools.cached is used without a lock); non-finite "
@@ -67,17 +79,18 @@ META = {
     "their own cache key; unhashable ones behave as CRS(obj.to_wkt())) and for bool, CRS.utm itself (pyproj's "
     "database query: its result is an input of the modelled hemisphere arithmetic), _pick_best_crs, "
     "crs_units_per_degree, authority (observed: history dependent through the lazy _epsg, same root as K4) / "
-    "units/dimensions/valid_region, the NaN clean-up wrapper around the transformer; aliasing of ONE CRS instance "
-    "held by several values (norm_crs hands the instance through: a later .epsg read changes all holders at once; "
-    "the model copies the record); geom.py BoundingBox and Geometry operations (C07/C16), _geojson_to_shapely / "
+    "units/dimensions/valid_region (units / dimensions / str are checked unchanged by an .epsg read, by oracle); "
+    "the instance heap of the sharing model is a layer of its own (the cache histories of part (a) still copy "
+    "records; the link is step_epsg_is_fillEpsg); geom.py BoundingBox and Geometry operations (C07/C16), _geojson_to_shapely / "
     "force_2d (only the CRS decision of Geometry.__init__ is modelled), shapely's own ==; geobox.py GeoBox/"
     "GeoboxTiles operations (C02/C12/C16), GeoBox.__rmul__; roi.py tiling look-ups (C04, linked by the composition "
     "theorems); types.py XY.map with an arbitrary function (only map(int) inside shape_), a str / dict / numpy array "
     "given where a sequence is expected, func2map; gridspec.py beyond __init__/__eq__ (C14, linked); gcp.py "
     "_points_to_array numerics (only the CRS defaulting), GCPGeoBox crop/pad/zoom (share the mapping), GCPMapping "
     "p2w/w2p/approx, from_rio.",
-    "technique": "Lean 4 proof over hand model + differential correspondence with real code (fresh interpreters "
-    "for cache histories)",
+    "technique": "Lean 4 proof over hand model + differential correspondence with real code (cache histories run "
+    "in processes forked from a job server that imported the modules but never constructed a CRS: pristine caches, "
+    "as in a fresh interpreter)",
     "design_ref": "DESIGN.md §4 C19",
 }
 
@@ -103,6 +116,62 @@ def run_worker(payload: dict, ops: list, timeout: int = 300) -> dict:
     if p.returncode != 0:
         raise RuntimeError("worker failed: " + p.stderr[-800:])
     return json.loads(p.stdout)
+
+
+def run_jobs(payload: dict, jobs: list, nthreads: int) -> list:
+    """All histories through a few job servers (c19_worker.py --serve: modules imported once, every history in a forked
+    child with pristine caches).  A history whose server fails is run again the slow way, one interpreter of its own."""
+    import queue
+    import threading
+
+    q: "queue.Queue" = queue.Queue()
+    for i, j in enumerate(jobs):
+        q.put((i, j))
+    results: list = [None] * len(jobs)
+    env = dict(os.environ)
+    env["PYTHONPATH"] = os.pathsep.join(p for p in sys.path if p)
+    env["PYTHONWARNINGS"] = "ignore"
+
+    def loop():
+        proc = None
+        while True:
+            try:
+                i, (_, ops) = q.get_nowait()
+            except queue.Empty:
+                break
+            res = None
+            try:
+                if proc is None or proc.poll() is not None:
+                    proc = subprocess.Popen([sys.executable, WORKER, "--serve"], stdin=subprocess.PIPE,
+                                            stdout=subprocess.PIPE, stderr=subprocess.DEVNULL, text=True, env=env)
+                req = dict(payload)
+                req["ops"] = ops
+                req["probe"] = PROBE
+                proc.stdin.write(json.dumps(req) + "\n")
+                proc.stdin.flush()
+                line = proc.stdout.readline()
+                res = json.loads(line) if line else None
+                if res is not None and "error" in res:
+                    res = None
+            except Exception:  # pylint: disable=broad-except
+                res = None
+                if proc is not None:
+                    proc.kill()
+                    proc = None
+            results[i] = res if res is not None else guarded_worker(payload, ops)
+        if proc is not None:
+            try:
+                proc.stdin.close()
+                proc.wait(timeout=10)
+            except Exception:  # pylint: disable=broad-except
+                proc.kill()
+
+    threads = [threading.Thread(target=loop) for _ in range(nthreads)]
+    for t in threads:
+        t.start()
+    for t in threads:
+        t.join()
+    return results
 
 
 def lean_ops(ops: list, rng) -> str:
@@ -409,7 +478,7 @@ def part_a(R: Run):
     jobs: List[Tuple[str, list]] = []
     # every spec alone in a fresh interpreter: the reference for history-freedom
     singles = []
-    for c in W.codes[: R.pick(6, len(W.codes))]:
+    for c in W.codes[: R.pick(3, len(W.codes))]:
         singles += W.lossless[c]
     singles += [("str", n) for n in sorted(W.lossy_names)]
     for h, ex in sorted(W.exotic.items()):
@@ -496,9 +565,9 @@ def part_a(R: Run):
     for i in range(R.pick(3, 12)):
         jobs.append((f"churn-{i}", gen_churn(rng, W, R.pick(1, 2))))
     for i in range(R.pick(1, 3)):
-        jobs.append((f"capacity-{i}", gen_capacity(rng, W, R.pick(3000, 5000))))
+        jobs.append((f"capacity-{i}", gen_capacity(rng, W, R.pick(2300, 5000))))
     _, es_big = W.lean_tables()   # the capacity histories added codes (table used for those lines only)
-    nproc = R.pick(28, 340)
+    nproc = R.pick(24, 340)
     for i in range(nproc):
         jobs.append((f"rand-{i}", gen_history(rng, W, R.pick(34, 40), R.pick(3, 4))))
 
@@ -513,8 +582,10 @@ def part_a(R: Run):
             elif op[0] in ("mp", "mc") and len(op) == 3 and rng.random() < 0.33:
                 ops[i] = op + ["norm"]
 
-    with ThreadPoolExecutor(max_workers=min(14, os.cpu_count() or 4)) as ex:
-        results = list(ex.map(lambda j: guarded_worker(payload, j[1]), jobs))
+    # the long histories (cache capacity, allocator churn) are started first: the wall time is that of the longest job
+    weight = lambda j: sum(len(o[2]) if o[0] == "bk" else (40 if o[0] == "tr" else 1) for o in j[1])  # noqa: E731
+    jobs.sort(key=weight, reverse=True)
+    results = run_jobs(payload, jobs, min(14, os.cpu_count() or 4))
 
     fresh: Dict[str, dict] = {}
     hist_ops: Dict[str, list] = {}
@@ -1161,10 +1232,12 @@ def build_families(quick: bool, E: "Enc") -> dict:
     gc_small = [GCPGeoBox((10, 10), m1), GCPGeoBox((10, 10), m1b), GCPGeoBox((9, 10), m1), GCPGeoBox((10, 10), m2)]
     for g in gb_small + gc_small:
         ge = (lambda g=g: ("G " + E.gbox(g)) if isinstance(g, GeoBox) else ("P " + E.gcp(g)))
-        hows = [(5, 5), (5, 4), (4, 5), (10, 10), ((5, 5), (5, 5)), ((5, 4), (5, 5)), ((5, 5), (10,)),
-                (16, 16), (10, 2048), ((10,), (10,))]
-        if tuple(g.shape) != (10, 10):
-            hows = [(5, 5), (5, 4), ((5, 4), (5, 5))]
+        # (chunk tuples must add up to the box: GeoboxTiles refuses the others since the fix on main)
+        ny_, nx_ = (int(v) for v in g.shape)
+        hows = [(5, 5), (5, 4), (4, 5), (10, 10), ((5, ny_ - 5), (5, nx_ - 5)), ((4, ny_ - 4), (5, nx_ - 5)),
+                ((5, ny_ - 5), (nx_,)), (16, 16), (10, 2048), ((ny_,), (nx_,))]
+        if (ny_, nx_) != (10, 10):
+            hows = [(5, 5), (5, 4), ((5, ny_ - 5), (5, nx_ - 5))]
         for how in hows:
             o = GeoboxTiles(g, how)
             if isinstance(how[0], tuple):
@@ -1677,7 +1750,10 @@ def part_ctor(R: Run):
 def run(R: Run):
     from .c19_glue import part_glue
 
+    from .c19_alias import part_alias
+
     A.guard("glue", lambda: part_glue(R))
+    A.guard("sharing / authority / NaN clean-up", lambda: part_alias(R))
     A.guard("constructors", lambda: part_ctor(R))
     A.guard("value families", lambda: part_b(R))
     A.guard("CRS histories", lambda: part_a(R))
